@@ -80,11 +80,11 @@ def sierraEntryPointsHash (eps : List SierraEP) : Term :=
 the tag has 16 bytes, so a semantic version of 16 bytes or more does not fit a field element -/
 def classVersionFelt (v : Bytes) : Term := setBytes (asciiBytes "CONTRACT_CLASS_V" ++ v)
 
-/-- SWITCH (the model follows the code). `false`: `/repo` as it is — `SierraClass.Hash()` accepts a
-`SemanticVersion` of any length. `true`: with `proposed-fixes/C02-sierra-class-version-wraps-mod-p.diff`
-`Hash()` fails for a version longer than 15 bytes (tag + version must fit 31 bytes). The harness probes the
+/-- SWITCH (the model follows the code). `true`: `/repo` as it is since fix d902b5f — `Hash()` fails for a
+`SemanticVersion` longer than 15 bytes (tag + version must fit 31 bytes). `false`: the code before that fix —
+`SierraClass.Hash()` accepts a version of any length (`class_version_wrap_accepted`). The harness probes the
 variant the code has (`probe-class-version-*`) and asks the driver for that variant. -/
-def classVersionLengthLimited : Bool := false
+def classVersionLengthLimited : Bool := true
 
 /-- `SierraClass.Hash()`; `none` = it returns an error -/
 def sierraClassHashWith (limited : Bool) (c : SierraCls) : Option Term :=
@@ -93,7 +93,7 @@ def sierraClassHashWith (limited : Bool) (c : SierraCls) : Option Term :=
                     sierraEntryPointsHash c.l1Handler, sierraEntryPointsHash c.constructor,
                     c.abiHash, c.programHash])
 
-/-- `SierraClass.Hash()` of the code as it is -/
+/-- `SierraClass.Hash()` of the code as it is (since d902b5f: the length-limited variant) -/
 def sierraClassHash (c : SierraCls) : Option Term := sierraClassHashWith classVersionLengthLimited c
 
 /-- `sn2core.AdaptSierraClass`: `programHash := crypto.PoseidonArray(response.Program)`,
@@ -163,10 +163,10 @@ def compiledHashPanics : Option CompiledShape → Bool
     | [] => false
     | ss => (Seg.digest c.bytecodeCap ss 0 0).isNone
 
-/-- SWITCH (the model follows the code). `false`: `/repo` as it is — the panic leaves `Store` (sync does not
-recover: the process dies). `true`: with `proposed-fixes/C02-store-panics-on-malformed-compiled-class.diff`
-`storeCasmHashMetadataV1` turns it into an error (the block is rejected, the batch dropped). -/
-def compiledHashGuarded : Bool := false
+/-- SWITCH (the model follows the code). `true`: `/repo` as it is since fix 302c657 — `storeCasmHashMetadataV1`
+turns the panic into an error (the block is rejected, the batch dropped). `false`: the code before that fix —
+the panic leaves `Store` (sync does not recover: the process dies). -/
+def compiledHashGuarded : Bool := true
 
 inductive CasmHashOutcome | value | error | panic
 deriving DecidableEq, Repr
